@@ -286,6 +286,8 @@ func cmdEntropy(args []string) int {
 		}(i)
 	}
 	wg.Wait()
+	// a case that did not return while many ran in parallel is repeated alone with a three times longer bound; only that counts
+	rerunHungCases(evs, "enc", func(i int) tr.Ev { return runEntropy(cases[i]) })
 	w, err := tr.Open(*out)
 	if err != nil {
 		return 2
